@@ -7,6 +7,24 @@ NOTE_COMMON = ('Trusted: Coq 8.16.1 kernel; no axioms (Print Assumptions of each
                'the hand-written Gallina model coq/Model/*.v is tied to /repo only by the differential correspondence run of this check (extracted OCaml model vs the crate rebuilt from the working tree, same case files); '
                'extraction with ExtrOcamlBasic only; CRCs, std I/O adapters, allocator and 64-bit usize are modelled, not verified. ')
 T = {
+ 'C04': ('Machine-checked theorems: for EVERY sequence of (probability, bit) steps the model of RangeEncoder (cache/carry propagation, 0xFF runs) plus finish() emits exactly the canonical byte string of the ideal unbounded-precision range encoder of the format theory, to sinks accepting any number of bytes per write; and the end marker written by dumbencoder.rs with probability-0x400 bits equals direct-bit coding for every reachable range. Round trip and byte-for-byte conformance of the three compressors with the reference encoding are checked by the differential run (model, crate, reference encoder, xz binary when present).',
+         'Coq proof (carry lemma, refinement of the ideal encoder, phase invariant for the marker) + differential correspondence',
+         'Partial: the composition of these lemmas through denc_finish / lzma_compress (probability tables threaded) and the LZMA2/XZ writers is not yet a theorem; it is covered by the correspondence run.'),
+ 'C05': ('Partial proof: machine-checked lemmas on which the streaming look-ahead rests - a symbol step consumes at most MAX_REQUIRED_INPUT = 20 bytes from any source (exact integer argument, including the 23-bit slot-12/13 path that the source comment misses), and the dry run consumes exactly the events of the real run without changing state. The equivalence streaming = one-shot itself is decided on every run by the differential check (Stream vs lzma_decompress on the crate and on the model, all chunkings of short inputs, cuts in the first 40 bytes, random compositions).',
+         'Coq proof of the look-ahead lemmas (partial) + differential correspondence stream/one-shot/model',
+         'Partial: the simulation theorem C05_stream_equals_oneshot is not proved yet.'),
+ 'C07': ('Machine-checked theorems for ARBITRARY input bytes (no well-formedness): one symbol step of the decoder on any world satisfying the invariant (registers < 2^32, probabilities in [31,2017], table shapes, window bytes < 256, dictionary > 0) never panics - no integer overflow/underflow, no out-of-bounds table or window index, no division by zero - and re-establishes the invariant, which holds initially; a symbol step consumes at most 20 bytes. Panics, hangs and heap growth of every public entry point are additionally checked on random and mutated inputs in overflow-checked and release builds under catch_unwind, a watchdog and a counting allocator.',
+         'Coq proof (state invariants of the decoder core) + differential correspondence + catch_unwind/watchdog/allocator measurements',
+         'Partial: lifting the invariant through process_mode / LZMA2 / XZ loops and the fuel (termination) bound are not yet theorems; real heap and wall-clock are measured, not proved.'),
+ 'C08': ('Machine-checked theorems about process_mode in Finish mode: with a size in effect success implies exactly that many bytes were produced (so truncation, an early end marker and an overshooting match are errors); with no size in effect success implies that the end marker was decoded (rep0 = 0xFFFFFFFF) and the range coder ended with code = 0; decoding never changes the size in effect. Header consumption (13/13/5 bytes), override rules and the streaming API are checked by the differential run over the full option matrix.',
+         'Coq proof (loop invariants of process_mode) + differential correspondence',
+         'The 13/13/5 header-consumption clause is covered by the correspondence run, not yet by a theorem.'),
+ 'C09': ('Machine-checked refinement theorems: the model of LzCircularBuffer (lazy growth, flush on wrap, wrapping/overlapping copy loop) and of LzAccumBuffer refine a plain history list; a copy or matched-literal read succeeds iff 1 <= dist <= min(produced, dict) (resp. bytes since the last dictionary reset) and then yields exactly the LZ77 copy of the history, otherwise Err with the window untouched - so no zero default or stale lap content is ever observed. Tied to the crate by programs with one out-of-window copy at every position relative to the wrap point.',
+         'Coq proof (refinement invariant circular/accumulating window vs history list) + differential correspondence',
+         'Stated at the window (LzBuffer) level; the end-to-end iff with sem awaits the C01 composition.'),
+ 'C10': ('Machine-checked theorems on the model of LzCircularBuffer: in every reachable state the buffer holds at most memlimit bytes; an append succeeds exactly when min(produced+n, dict) <= memlimit and then behaves as without a limit, otherwise it fails with Err while the sink holds a prefix of the output. The counting allocator measures the real heap; the streaming decoder is covered by the differential run.',
+         'Coq proof (window invariant incl. memlimit) + differential correspondence + allocator measurement',
+         'Stated at the window level; heap is measured, not proved.'),
  'C14': ('Machine-checked Coq theorem over the model of the raw LzmaDecoder: for EVERY history of decompress calls (any input, any sink, failing or not) and resets, reset(us) yields exactly the DecoderState of a freshly constructed decoder with the same properties, dictionary size, memory limit and re-specified/retained size, hence the next decompress has the same verdict and the same effect on source and sink (induction over histories; invariant: partial-input buffer empty, literal table shape matches lc+lp). The Lzma2Decoder half is covered by the differential run (reused vs fresh decoder, and model), no theorem yet.',
          'Coq proof (invariant over operation histories) + differential correspondence model/crate',
          'LZMA2 reset: correspondence only.'),
